@@ -87,6 +87,8 @@ def run(rep, tier):
             lri = repo.lower(build, group=group, level="O0", inline_internal=True)
             rule_format(rep, ir.Module.load(lri.json))
         rule_loop_state(rep, m, group, build)
+        if group == "asconcrypt":
+            rule_open_flags(rep, m, build)
     rep.floor("C19.D1", 18)      # about half of the call sites of today's tree: refactorings merge and split them
     rep.floor("C19.D2", 10)
     rep.floor("C19.D3", 2)
@@ -644,3 +646,75 @@ def rule_loop_state(rep, m, group, build):
                           "value than the first" % (c.callee, root[1].lstrip("@"),
                                                     w.callee if w.op == "call" else "main"), config=group)
     rep.instance(rid, n, {"tool": group, "loop_calls": sorted(set(c.callee for c in calls))})
+
+
+def rule_open_flags(rep, m, build):
+    """D6: the output file starts empty.  Whatever opens the output for writing
+    must create it and truncate an existing file (open(2) with O_CREAT and
+    O_TRUNC and a write access mode, or fopen with a "w" mode): otherwise the
+    tail of an older, longer file survives behind the new contents - the
+    decrypted file is not the original, and an encrypted file is rejected as
+    corrupt.  The input is opened read-only.  Flag values are taken from the
+    platform's <fcntl.h> through the preprocessor."""
+    rid = "C19.D6"
+    rep.rule(rid, "the output file is created and truncated when opened; the input is opened read-only")
+    us = build.group("asconcrypt", ("c",))
+    src = "#include <fcntl.h>\n"
+    p = repo.run(["clang", "-E", "-dM", "-x", "c"] + us[0].flags() + ["-"], cwd=us[0].directory, stdin=src.encode())
+    mac = {}
+    for line in p.stdout.decode(errors="replace").splitlines():
+        parts = line.split(None, 2)
+        if len(parts) == 3 and parts[0] == "#define" and parts[1] in ("O_TRUNC", "O_CREAT", "O_WRONLY", "O_RDWR", "O_ACCMODE", "O_RDONLY"):
+            try:
+                v = parts[2].strip()
+                mac[parts[1]] = int(v, 8) if (len(v) > 1 and v[0] == "0" and v.isdigit()) else int(v, 0)
+            except ValueError:
+                pass
+    if not {"O_TRUNC", "O_CREAT", "O_WRONLY", "O_ACCMODE"} <= set(mac):
+        rep.unproved_item(rid, "open(2) flag macros not available as plain constants")
+        return
+    for fname, writing in (("safe_file_open_write", True), ("safe_file_open_read", False)):
+        f = m.funcs.get(fname)
+        if f is None or f.decl:
+            rep.unproved_item(rid, "%s not found" % fname)
+            continue
+        opens = [c for c in f.calls() if c.callee in ("open", "open64", "fopen", "fopen64")]
+        if not opens:
+            rep.unproved_item(rid, "%s: no open/fopen call" % fname)
+            continue
+        for c in opens:
+            if c.callee.startswith("fopen"):
+                gs = list(ir.globals_in(c.ops[1])) if len(c.ops) > 1 else []
+                mode = bytes.fromhex(m.globals[gs[0]]["bytes"]).split(b"\0")[0].decode("latin1") if gs and m.globals.get(gs[0], {}).get("bytes") else None
+                if mode is None:
+                    rep.unproved_item(rid, "%s: fopen mode is not a constant string" % fname)
+                elif writing and not mode.startswith("w"):
+                    rep.violation(rid, "%s:mode" % fname, c.where(), "%s opens the output with fopen mode %r: an existing file is not "
+                                  "truncated, its old tail survives behind the new contents" % (fname, mode), config="asconcrypt")
+                elif not writing and not mode.startswith("r"):
+                    rep.violation(rid, "%s:mode" % fname, c.where(), "%s opens the input with fopen mode %r" % (fname, mode), config="asconcrypt")
+                else:
+                    rep.instance(rid, 1, {"function": fname, "fopen_mode": mode})
+                continue
+            fl = ir.const_int(c.ops[1]) if len(c.ops) > 1 else None
+            if fl is None:
+                rep.unproved_item(rid, "%s: open flags are not a constant" % fname)
+                continue
+            acc = fl & mac["O_ACCMODE"]
+            if writing:
+                missing = [n for n in ("O_CREAT", "O_TRUNC") if not fl & mac[n]]
+                if acc not in (mac["O_WRONLY"], mac.get("O_RDWR", -1)):
+                    missing.append("a write access mode")
+                if missing:
+                    rep.violation(rid, "%s:flags" % fname, c.where(),
+                                  "%s opens the output with flags %#o, without %s: an existing longer file keeps its old tail behind "
+                                  "the new contents, so decrypt(encrypt(x)) is not x and a re-encrypted file is rejected as corrupt" % (
+                                      fname, fl, " and ".join(missing)), config="asconcrypt")
+                else:
+                    rep.instance(rid, 1, {"function": fname, "flags": oct(fl)})
+            else:
+                if acc != mac.get("O_RDONLY", 0) or fl & (mac["O_TRUNC"] | mac["O_CREAT"]):
+                    rep.violation(rid, "%s:flags" % fname, c.where(), "%s opens the input with flags %#o (not read-only)" % (fname, fl),
+                                  config="asconcrypt")
+                else:
+                    rep.instance(rid, 1, {"function": fname, "flags": oct(fl)})
